@@ -225,15 +225,16 @@ class FileInfo:
         # noinspection PyProtectedMember
         prefix = self.vpk._dir_prefix
 
-        if prefix is None:
-            self.start_data = data
-            self.arch_len = 0
-            return
-
+        # The directory entry stores the preload length in 16 bits. Whatever the configured limit
+        # (it is ignored for single-file VPKs), anything beyond that goes after the file tree / into an archive.
         limit = self.vpk.dir_limit
+        if prefix is None or limit is None or limit > 0xFFFF:
+            limit = 0xFFFF
+        if prefix is None:
+            arch_index = None
+
         self.start_data = data[:limit]
-        # No limit means everything is kept in the directory: data[None:] would be all of the data again.
-        arch_data = data[limit:] if limit is not None else b''
+        arch_data = data[limit:]
 
         self.arch_len = len(arch_data)
 
